@@ -1,21 +1,29 @@
 #!/bin/bash
-# tools/run_benign_dir.sh <nslots> [checks...] : every /verif/benign/*/patch.diff through tools/sb.sh (all 17 quick checks by
-# default) spread over <nslots> scratch slots; logs in /tmp/rbenign/<name>.log; summary on stdout
-n=$1; shift
-mkdir -p /tmp/rbenign
-ls -d /verif/benign/C*/ > /tmp/rbenign/list.txt
+# tools/run_benign_dir.sh <nslots> [dir] [outdir] : every <dir>/*/patch.diff (default /verif/benign) through a private copy
+# of tools/sb.sh, spread over <nslots> scratch slots. Checks run per patch: all 17 for the changes written for C04, C05,
+# C08, C09, C12 (parser / totality work), all but the three expensive string sweeps C04 C05 C12 for the others.
+# Logs in <outdir>/<name>.log (default /tmp/rbenign); summary on stdout: "quiet" = every check run exited 0.
+n=$1; dir=${2:-/verif/benign}; out=${3:-/tmp/rbenign}
+mkdir -p $out
+cp /verif/tools/sb.sh $out/sb.sh   # a private copy: editing tools/sb.sh meanwhile must not break running shells
+ls -d $dir/C*/ > $out/list.txt
+ALL="C01 C02 C03 C04 C05 C06 C07 C08 C09 C10 C11 C12 C13 C14 C15 C16 C17"
+LIGHT="C01 C02 C03 C06 C07 C08 C09 C10 C11 C13 C14 C15 C16 C17"
+tag=$(basename $out | tr -cd 'a-z0-9' | tail -c 4)
 for s in $(seq 1 $n); do
   (
     i=0
     while read -r d; do
       i=$((i+1)); [ $(( (i-1) % n + 1 )) -eq $s ] || continue
       name=$(basename $d)
-      [ -s /tmp/rbenign/$name.log ] && continue
-      /verif/tools/sb.sh g$s $d/patch.diff "$@" > /tmp/rbenign/$name.log.tmp 2>&1; mv /tmp/rbenign/$name.log.tmp /tmp/rbenign/$name.log
-    done < /tmp/rbenign/list.txt
+      [ -s $out/$name.log ] && continue
+      case $name in C04-*|C05-*|C08-*|C09-*|C12-*) checks=$ALL ;; *) checks=$LIGHT ;; esac
+      bash $out/sb.sh $tag$s $d/patch.diff $checks > $out/$name.log.tmp 2>&1; mv $out/$name.log.tmp $out/$name.log
+    done < $out/list.txt
   ) &
 done
 wait
-for f in /tmp/rbenign/*.log; do
-  if grep -q "^QUIET" $f; then echo "$(basename $f .log): quiet"; else echo "$(basename $f .log): $(grep -o 'CHECK C[0-9]*: exit=[12]' $f | tr '\n' ' ') $(grep -c 'HARNESS-BUILD-FAILED\|does not apply' $f)"; fi
+for f in $out/*.log; do
+  bad=$(grep -o 'CHECK C[0-9]*: exit=[12]' $f | tr '\n' ' ')
+  if [ -z "$bad" ] && grep -q "^CHECK" $f; then echo "$(basename $f .log): quiet"; else echo "$(basename $f .log): $bad $(grep -c 'HARNESS-BUILD-FAILED\|does not apply' $f)"; fi
 done
